@@ -53,9 +53,9 @@ def tstart_check(p):
             elif op == "extract_samps":
                 outs = [(fil.extract_samps(p["start"], p["nsamps"], outfile_name=o, gulp=p["gulp"], quiet=True), lambda c: c, 1)]
             elif op == "extract_chans":
-                outs = [(f, (lambda c, ch=ch: ch), 1) for f, ch in zip(fil.extract_chans(np.array(p["chans"]), outfile_base=os.path.join(d, "o"), **kw), p["chans"])]
+                outs = [(f, (lambda c, ch=ch: ch), 1) for f, ch in zip(fil.extract_chans(np.array(p["chans"]), outfile_base=os.path.join(d, "o"), batch_size=p.get("batch_size", 200), **kw), p["chans"])]
             elif op == "extract_bands":
-                fs = fil.extract_bands(p["chanstart"], p["nchans_sel"], p["chanpersub"], outfile_base=os.path.join(d, "o"), **kw)
+                fs = fil.extract_bands(p["chanstart"], p["nchans_sel"], p["chanpersub"], outfile_base=os.path.join(d, "o"), batch_size=p.get("batch_size", 200), **kw)
                 outs = [(f, (lambda c, lo=p["chanstart"] + b * p["chanpersub"]: lo + c), 1) for b, f in enumerate(fs)]
             elif op == "downsample":
                 ff = p["ffactor"]
